@@ -539,3 +539,54 @@ def r13(rr, repo):
     cm, cinit = repo.find(f'{CL}::OpenTelemetryClient.__init__')
     prov = [n for n in walk_scope(cinit) if isinstance(n, ast.Assign) and isinstance(n.value, ast.Call) and U(n.value.func).split('.')[-1] == 'MeterProvider' and any(U(t) == 'self.provider' for t in n.targets)]
     rr.ob('the client keeps its provider where the teardown finds it (self.provider)', bool(prov), cm, prov[0] if prov else cinit, key='provider-kept')
+
+
+@rule('C16.R14', "the allow-list in force is the one configured when the client is made: read_allowlist() reads its file on every call. A document remembered per process (a module-level table keyed by "
+                 "path, a cache decorator) keeps the FIRST content of the file - read at import already, for the OpenLineage settings in the same file - so a file tightened to lock-down before a later "
+                 "run in the process still lets the formerly allowed metrics through")
+def r14(rr, repo):
+    mod, fn = repo.find(f'{CF}::read_allowlist')
+    CACHES = ('cache', 'lru_cache', 'functools.cache', 'functools.lru_cache', 'cached')
+    module_tables = {U(t) for st in mod.tree.body if isinstance(st, (ast.Assign, ast.AnnAssign)) for t in (st.targets if isinstance(st, ast.Assign) else [st.target])
+                     if isinstance(getattr(st, 'value', None), (ast.Dict, ast.List, ast.Set)) or (isinstance(getattr(st, 'value', None), ast.Call) and U(st.value.func) in ('dict', 'list', 'set', 'defaultdict', 'OrderedDict'))}
+
+    def memo_of(f):
+        """why the result of `f` can be one that an earlier call computed, or None"""
+        for d in f.decorator_list:
+            if U(d.func if isinstance(d, ast.Call) else d).split('.')[-1] in CACHES:
+                return f'@{U(d)}'
+        for r in [n for n in walk_scope(f) if isinstance(n, ast.Return) and n.value is not None]:
+            for x in ast.walk(r.value):
+                if isinstance(x, ast.Subscript) and U(x.value) in module_tables:
+                    return f'returns {U(x)[:50]} (module-level table {U(x.value)})'
+                if isinstance(x, ast.Call) and isinstance(x.func, ast.Attribute) and x.func.attr in ('get', 'setdefault') and U(x.func.value) in module_tables:
+                    return f'returns {U(x)[:50]} (module-level table {U(x.func.value)})'
+        return None
+
+    why = memo_of(fn)
+    rr.ob('read_allowlist itself computes its answer on every call', why is None, mod, fn, witness=why or 'no cache decorator, nothing returned from a module-level table', key='allowlist-read-per-call')
+    docs = [n for n in walk_scope(fn) if isinstance(n, ast.Assign) and any(isinstance(c, ast.Call) and isinstance(c.func, ast.Attribute) and c.func.attr == 'get' and c.args and q.const_str(c.args[0]) == 'safe_metrics' for c in ast.walk(n.value))]
+    rr.floor("reads of 'safe_metrics' in read_allowlist", len(docs), 1, mod, fn)
+    for g in docs:
+        recv = [c.func.value for c in ast.walk(g.value) if isinstance(c, ast.Call) and isinstance(c.func, ast.Attribute) and c.func.attr == 'get' and c.args and q.const_str(c.args[0]) == 'safe_metrics'][0]
+        src = [n for n in walk_scope(fn) if isinstance(n, ast.Assign) and U(n.targets[0]) == U(recv)]
+        if not src:
+            rr.unresolved("where the document read_allowlist evaluates comes from was not found", mod, g, witness=U(recv), key='allowlist-document-fresh')
+            continue
+        v = src[-1].value
+        loads = [c for c in ast.walk(v) if isinstance(c, ast.Call) and U(c.func).endswith(('safe_load', 'load'))]
+        calls = [c for c in ast.walk(v) if isinstance(c, ast.Call) and isinstance(c.func, ast.Name) and any(isinstance(f, ast.FunctionDef) and f.name == c.func.id for f in mod.tree.body)]
+        if loads and any(isinstance(a, ast.With) and any(isinstance(i.context_expr, ast.Call) and U(i.context_expr.func) == 'open' for i in a.items) for a in ancestors_of(src[-1])):
+            rr.ob('the document is parsed from the file opened in this call', True, mod, src[-1], witness=U(src[-1])[:90], key='allowlist-document-fresh')
+        elif calls:
+            callee = [f for f in mod.tree.body if isinstance(f, ast.FunctionDef) and f.name == calls[0].func.id][0]
+            why = memo_of(callee)
+            opens = any(isinstance(c, ast.Call) and U(c.func) == 'open' for c in ast.walk(callee))
+            if why:
+                rr.ob('the document is parsed from the file opened in this call', False, mod, src[-1], witness=f'{callee.name}(): {why}', key='allowlist-document-fresh')
+            elif opens:
+                rr.ob('the document is parsed from the file opened in this call', True, mod, src[-1], witness=f'{callee.name}() opens and parses the file', key='allowlist-document-fresh')
+            else:
+                rr.unresolved('where the document comes from was not decided', mod, src[-1], witness=U(src[-1])[:90], key='allowlist-document-fresh')
+        else:
+            rr.unresolved('where the document comes from was not decided', mod, src[-1], witness=U(src[-1])[:90], key='allowlist-document-fresh')
